@@ -39,6 +39,7 @@ def actions(level="std", nested=False):
 
     un("calc d=a+b", lambda c: {"a", "b"} <= c and "d" not in c, lambda ch, o, i: ("calc", ch, "d", ("add", A, B), o))
     un("calc e=-it(a)", lambda c: "a" in c and "e" not in c, lambda ch, o, i: ("calc", ch, "e", ("rneg", A, "it"), o))
+    un("calc e=-none(a)", lambda c: "a" in c and "e" not in c, lambda ch, o, i: ("calc", ch, "e", ("efn", A, "none"), o))
     un("proj -b", lambda c: "b" in c, lambda ch, o, i: ("proj", ch, tuple(sorted(c for c in _c(ch) if c != "b")), o))
     un("proj -d", lambda c: "d" in c, lambda ch, o, i: ("proj", ch, tuple(sorted(c for c in _c(ch) if c != "d")), o))
     un("proj a", lambda c: "a" in c and len(c) > 1, lambda ch, o, i: ("proj", ch, ("a",), o))
